@@ -123,3 +123,25 @@ func init() {
 	}
 	s["(*net.UDPAddr).String"] = func(in *Interp, fr *frame, a []Value) Value { return "127.0.0.1:3799" }
 }
+
+// RADIUS authentication outcome is an environment choice: accept / reject / error (timeout, unreachable).
+func init() {
+	stubs["(*"+repoModule+"/pkg/radius.Client).Authenticate"] = func(in *Interp, fr *frame, a []Value) Value {
+		outcome := in.pick("radius-outcome", 3)
+		in.env.kv["radius-outcome"] = in.k64(int64(outcome))
+		if outcome == 2 {
+			return Tuple{(*Value)(nil), in.mkError("radius: timeout")}
+		}
+		rt := fr.fn.Signature.Results().At(0).Type().(*types.Pointer).Elem()
+		var cell Value = in.zero(rt)
+		st := cell.(Struct)
+		st[0] = in.tc.Bool(outcome == 0) // Accepted
+		return Tuple{&cell, Iface{}}
+	}
+	harnessAPI["vEnvInt"] = func(in *Interp, fr *frame, a []Value) Value {
+		if v, ok := in.env.kv[a[0].(string)]; ok {
+			return v
+		}
+		return a[1]
+	}
+}
